@@ -427,6 +427,12 @@ impl ops::Sub<RealSemiring> for RealSemiring {"""),
                 };""",
          new="""                let _ = already_watched;
                 let new_lit: &Literal = remaining_lits.next().unwrap();"""),
+    dict(name="ts-stk-pushed-model-is-the-old-model", file=UP, rule="TS", props=["C09"], expect="pushed-state",
+         old="""                self.state_stack.push(SatState {
+                    model: new_model,""",
+         new="""                let _ = &new_model;
+                self.state_stack.push(SatState {
+                    model: self.top_state().model.clone(),"""),
     dict(name="law-eu-choose-smaller", file="src/util/semirings/expectation.rs", rule="LAW", props=["C13"], expect="ExpectedUtility:choose",
          old="""impl BBSemiring for ExpectedUtility {
     fn choose(&self, arg: &ExpectedUtility) -> ExpectedUtility {
